@@ -44,7 +44,7 @@ RAISABLE = ["LOCATING_DISCOVERED_SPA", "CONNECTION_GOT_FIRMWARE_VERSION", "CONNE
 
 def strategy(tier):
     t = st.one_of(st.floats(0.0, 0.45), st.floats(0.45, 3.6), st.floats(0.45, 3.6), st.floats(3.6, 20.0), st.just(140.0)).map(lambda x: round(x, 3))
-    cyc = st.tuples(st.sampled_from(["none", "none", "none", "blackout", "rferr"]), st.sampled_from(["reset", "reset", "setinfo"]), t,
+    cyc = st.tuples(st.sampled_from(["none", "none", "none", "blackout", "rferr", "dark"]), st.sampled_from(["reset", "reset", "setinfo"]), t,
                     st.one_of(st.just(0), st.just(0), st.integers(1, 400))).map(list)
     jitter = st.one_of(st.just([]), st.lists(st.sampled_from([0.0, 0.0, 0.01, 0.03, 0.05]), min_size=1, max_size=7))
     smap = st.dictionaries(st.sampled_from(["RUNNING_SPA_DISCONNECTED", "CLIENT_FACADE_TEARDOWN", "CONNECTION_STARTED", "LOCATING_FINISHED"]),
@@ -54,7 +54,7 @@ def strategy(tier):
     rmap = st.one_of(st.just({}), st.just({}), st.just({}), st.dictionaries(
         st.sampled_from(RAISABLE), st.integers(1, 3), min_size=1, max_size=2))
     # a client task is in the middle of a facade command (the spa does not acknowledge) when the first reset / exit comes
-    infl = st.one_of(st.none(), st.none(), st.none(), st.tuples(st.sampled_from(["press", "pump", "temp"]), st.sampled_from([0.3, 1.0, 3.0, 5.5, 7.0])).map(list))
+    infl = st.one_of(st.none(), st.none(), st.none(), st.tuples(st.sampled_from(["press", "press-task", "pump", "temp"]), st.sampled_from([0.3, 1.0, 3.0, 5.5, 7.0])).map(list))
     return st.builds(lambda cs, ex, es, j, sm, rm, inf: dict({"cycles": cs, "exit_at": ex, "jitter": j, "suspend_map": sm}, **({"exit_step": es} if es else {}),
                                                              **({"raise_map": rm} if rm else {}), **({"inflight": inf} if inf else {})),
                      st.lists(cyc, min_size=0, max_size=5), t, st.one_of(st.just(0), st.just(0), st.integers(1, 400)), jitter, smap, rmap, infl)
@@ -64,18 +64,23 @@ _STEPS = {}
 
 
 def enumerated(tier):
+    # in both tiers: a reset / set-spa-info at every loop step around the creation of the connection's endpoint, after which the spa
+    # goes dark - the abandoned attempt's handshake gets no answer and ends by exhausting its retries, not by an exception
+    dark = [{"cycles": [["dark", k, 0.0, step]], "exit_at": 5.0, "jitter": [], "suspend_map": {}} for step in range(96, 122) for k in ("reset", "setinfo")]
     if tier != "thorough":
-        return 0, lambda i: None
+        return len(dark), lambda i: dark[i]
     n = 420
     kinds = ["reset", "setinfo", "exit"]
 
     def fn(i):
+        if i >= n * 3:
+            return dark[i - n * 3]
         k, step = kinds[i % 3], 1 + i // 3
         if k == "exit":
             return {"cycles": [], "exit_at": 0.0, "exit_step": step, "jitter": [], "suspend_map": {}}
         return {"cycles": [["none", k, 0.0, step]], "exit_at": 5.0, "jitter": [], "suspend_map": {}}
 
-    return n * 3, fn
+    return n * 3 + len(dark), fn
 
 
 def run_case(case) -> Result:
@@ -149,10 +154,10 @@ def run_case(case) -> Result:
 
             for ci, (fault, kind, at, step) in enumerate(case["cycles"]):
                 t_c = W.clock.t
-                if fault not in ("none", "blackout", "rferr") or kind not in ("reset", "setinfo"):
+                if fault not in ("none", "blackout", "rferr", "dark") or kind not in ("reset", "setinfo"):
                     raise InvalidCase(case)
                 # reach an error state first, if asked (needs a connection)
-                if fault != "none":
+                if fault not in ("none", "dark"):
                     await pump_until(W.clock.t + 6.0)
                     sc.apply("blackout" if fault == "blackout" else "rferr", True)
                     await pump_until(W.clock.t + (150.0 if fault == "blackout" else 40.0))
@@ -165,7 +170,9 @@ def run_case(case) -> Result:
                     # (an endpoint whose creation is still in flight has not been given to the library yet: it belongs to
                     # the connection attempt that is running underneath the injection, judged below with that attempt)
                     snap["eps"] = [t for t in W.transports if t.handed_over or t.closed]
-                    snap["tasks"] = [t for t in man._tasks if t.get_name().startswith(CONN)]
+                    # every task the library runs for this connection, whatever it is called (only the manager's own pump and the
+                    # task manager's tidy loop outlive a connection)
+                    snap["tasks"] = [t for t in man._tasks if not t.get_name().startswith(("SPAMAN:", "ASYNC:"))]
                     snap["spa"] = man._spa
                     snap["t"] = W.clock.t
                     if man.spa_state in busy_states:
@@ -183,6 +190,9 @@ def run_case(case) -> Result:
                             try:
                                 if infl[0] == "press":
                                     await man._spa.async_press(1)
+                                elif infl[0] == "press-task":
+                                    man._spa.press(3)          # the non-awaitable twin: the library runs the key press in a task of its own
+                                    await W.sleep(0.01)
                                 elif infl[0] == "pump" and fac.pumps:
                                     await fac.pumps[0].async_set_mode(fac.pumps[0].modes[-1])
                                 else:
@@ -217,6 +227,9 @@ def run_case(case) -> Result:
                     else:
                         await man.async_set_spa_info(peer.addr[0], manager.SPA_ID_STR, "Spa")
                 t_inj = W.clock.t
+                if fault == "dark":
+                    W.blackout = True
+                    W.loop.call_at_exact(W.clock.t + 75.0, lambda: setattr(W, "blackout", False))
                 W.s2c_filter = None
                 if infl and "user_task" in info:
                     info["inflight_at"] = t_inj
